@@ -546,6 +546,8 @@ package mqtt
 //@ func mqtt.fileSystem.Load -> value, err
 //@ ensures[C19] !fs_exists(fsname(sid(dir), key, 0)) ==> value == nil && err == nil
 //@ ensures[C19] err == nil && value != nil ==> fs_exists(fsname(sid(dir), key, 0))
+// absence is reported only for a file that is not there: any other failure to read comes back as an error
+//@ ensures[C19,C15] err == nil && value == nil ==> !fs_exists(fsname(sid(dir), key, 0))
 //@ ensures[C19] forall(n, fs_exists(n) == old(fs_exists(n)) && fs_log(n) == old(fs_log(n)) && fs_sync(n) == old(fs_sync(n)))
 
 // Signals: a singleton holder channel carries the current signal channel.
@@ -730,6 +732,8 @@ package mqtt
 //@ pred rdinv(c): cfglens(c) && writable(c) && sigfull(c) && c.connSem != nil && cap(c.connSem) == 1 && c.connSem != c.writeSem && (closed(c.connSem) ==> len(c.connSem) == 0) && c.persistence != nil && c.perPacketID != nil && c.pingAck != nil && !closed(c.pingAck) && cap(c.pingAck) == 1 && c.atLeastOnce.queue != nil && c.exactlyOnce.queue != nil && c.atLeastOnce.queue != c.exactlyOnce.queue && c.pingAck != c.atLeastOnce.queue && c.pingAck != c.exactlyOnce.queue && c.atLeastOnce.seqSem != nil && cap(c.atLeastOnce.seqSem) == 1 && c.exactlyOnce.seqSem != nil && cap(c.exactlyOnce.seqSem) == 1 && c.atLeastOnce.seqSem != c.exactlyOnce.seqSem && !closed(c.atLeastOnce.seqSem) && !closed(c.exactlyOnce.seqSem) && wrap64(c.Received - c.Completed) <= len(c.exactlyOnce.queue) && cap(c.exactlyOnce.queue) <= 16384 && (len(c.pendingAck) == 0 || len(c.pendingAck) == 4) && (c.bufr != nil ==> rx_bufref(c.bufr) > 0 && allocated(rx_bufref(c.bufr)) && rx_bufref(c.bufr) != ref(c.pendingAck) && rx_size(c.bufr) == readBufSize) && (ref(c.peek) == 0 || (c.bufr != nil && ref(c.peek) == rx_bufref(c.bufr))) && (c.bigMessage != nil ==> c.bigMessage.Size >= 0) && (c.bufr == nil ==> c.bigMessage == nil && c.peek == nil) && (c.bufr != nil ==> len(c.peek) <= rx_size(c.bufr))
 //@ pred rdmaps(c): forall(k, k >= 32768 && k < 65536 && st_has(c.persistence, k) ==> st_len(c.persistence, k) >= 2) && (st_has(c.persistence, 0) ==> st_len(c.persistence, 0) <= 65535)
 //@ func mqtt.(*Client).readSlices -> message, topic, err
+// a packet is skipped only when its type is one the broker may send after CONNACK and its handler accepted it
+//@ at[C13] call Discard#3: assert head / 16 == 3 || head / 16 == 4 || head / 16 == 5 || head / 16 == 6 || head / 16 == 7 || head / 16 == 9 || head / 16 == 11 || head / 16 == 13
 // only the retransmission of a message already taken is skipped: every other failure of onPUBLISH ends the
 // connection, and that one does not
 //@ at[C13,C04] call toOffline#4: assert err != errDupe
@@ -927,7 +931,7 @@ package mqtt
 //@ func mqtt.(*Client).ReadBackoff -> ch
 //@ requires c.ReconnectWaitMin >= 0 && c.ReconnectWaitMax >= c.ReconnectWaitMin
 //@ modifies c.reconnectWait
-//@ at[C10] call AfterFunc#1: assert d == 1000000000 || (d >= c.ReconnectWaitMin && d <= c.ReconnectWaitMax)
+//@ at[C10] call AfterFunc#1: assert (c.readConn != nil ==> d == 1000000000) && (c.readConn == nil ==> d >= c.ReconnectWaitMin && d <= c.ReconnectWaitMax)
 //@ ensures[C10] err == nil || c.bigMessage != nil ==> ch == closed
 //@ ensures[C10,C12] err != nil && c.bigMessage == nil && Is(err, ErrClosed) ==> ch == nil
 //@ ensures[C10] err != nil && c.bigMessage == nil && !Is(err, ErrClosed) ==> ch != nil && fresh(ch)
